@@ -843,6 +843,12 @@ pub(crate) async fn commit_transaction(
             // Row ids handed out by versions newer than the restored one stay
             // reachable through time travel, never hand them out again.
             manifest.next_row_id = manifest.next_row_id.max(dataset.manifest.next_row_id);
+            // Likewise for fragment ids: caches are keyed by fragment id, so a new fragment
+            // must not get the id of a fragment of a newer (still readable) version.
+            let max_fragment_id = manifest
+                .max_fragment_id()
+                .max(dataset.manifest.max_fragment_id());
+            manifest.max_fragment_id = max_fragment_id.map(|id| id as u32);
         }
 
         let previous_writer_version = &dataset.manifest.writer_version;
